@@ -29,6 +29,7 @@ const (
 	nTags  = 1 + 8 + 64              // none | {t1} | {t1,t2}
 	nRows1 = nCond * nTags * 2       // x alias
 	nRows2 = nCond * 2 * 2 * 2       // x mid alias x leaf alias x P placed in root's section
+	nRows3 = nCond * 2 * 2 * 2       // x inner alias x leaf alias x P placed in mid's section for inner
 )
 
 type condSpec struct {
@@ -180,4 +181,37 @@ func table2Input(row int) treeInput {
 	midDef.Deps = []*dep{ld}
 	root.Deps = []*dep{md}
 	return treeInput{Root: root, User: user, Stratum: "table2", Note: fmt.Sprintf("row %d: top -> %s -> %s cond=%v (P in %s)", row, md.name(), ld.name(), ld.Cond, []string{"mid's values.yaml", "top's section for mid"}[rootSec])}
+}
+
+// table3Input realises one row of the depth-3 table: top -> mid -> inner -> leaf (four charts deep),
+// the leaf is under test; its condition is evaluated in inner's values.
+func table3Input(row int) treeInput {
+	s := &sgen{}
+	pLoc := row % 2
+	leafAlias := (row / 2) % 2
+	innerAlias := (row / 4) % 2
+	ck := row / 8
+	leafDef := &chartDef{Name: "leaf", Values: map[string]any{"p1": s.own("leaf")}}
+	innerDef := &chartDef{Name: "inner", Values: map[string]any{"p1": s.own("inner")}}
+	midDef := &chartDef{Name: "mid", Values: map[string]any{"p1": s.own("mid")}}
+	root := &chartDef{Name: "top", Values: map[string]any{"p1": s.own("top"), "global": map[string]any{"gk1": s.glob("top")}}}
+	ld := &dep{Def: leafDef}
+	if leafAlias == 1 {
+		ld.Alias = "lal"
+	}
+	id := &dep{Def: innerDef}
+	if innerAlias == 1 {
+		id.Alias = "ial"
+	}
+	md := &dep{Def: midDef}
+	user := map[string]any{}
+	defPar := innerDef.Values
+	if pLoc == 1 {
+		defPar = ensure(midDef.Values, id.name())
+	}
+	ld.Cond = applyCond(decodeCond(ck), ld.name(), ensure(ensure(user, "mid"), id.name()), defPar, leafDef.Values, row)
+	innerDef.Deps = []*dep{ld}
+	midDef.Deps = []*dep{id}
+	root.Deps = []*dep{md}
+	return treeInput{Root: root, User: user, Stratum: "table3", Note: fmt.Sprintf("row %d: top -> mid -> %s -> %s cond=%v (P in %s)", row, id.name(), ld.name(), ld.Cond, []string{"inner's values.yaml", "mid's section for inner"}[pLoc])}
 }
